@@ -242,6 +242,10 @@ class FakeChannel:
             else:
                 self.server.dead_letter(qname, m)
         self._after()
+        # the client call returns when its frame has drained (aiormq: `await drain_future`); what the server sends in
+        # reaction (a redelivery of the message just given back) may be handled by the client before that
+        await asyncio.sleep(0)
+        await asyncio.sleep(0)
 
     async def basic_nack(self, delivery_tag: int, multiple: bool = False, requeue: bool = True, wait: bool = True) -> None:
         await self._trip("nack", (delivery_tag, requeue))
